@@ -8,9 +8,12 @@ EXTENDS Interop, TLC, Json
 
 CONSTANTS Mode
 
+U32Max == Sub(Two32, One)
+Two53 == MulInt(MulInt(FromInt(67108864), 67108864), 2)      \* beyond it a JSON number read as a double loses its last bit
 IntValues == <<Zero, One, Neg(One), FromInt(255), FromInt(65536), I64Max, I64Min, Sub(I64Min, One), U64Max, Two64,
-               I128Max, I128Min, Sub(I128Max, One), Neg(Two64)>>
-ByteLens == {0, 1, 2, 28, 29, 32, 40}
+               I128Max, I128Min, Sub(I128Max, One), Neg(Two64),
+               Add(FromInt(2147483647), One), Two32, Add(Two53, One), Neg(Add(Two53, One)), Sub(U64Max, One), Add(I64Min, One)>>
+ByteLens == {0, 1, 2, 28, 29, 32, 40, 4096, 4097}
 AllForms == {"decimal_string", "hex16", "number", "literal", "number01", "string", "hex", "hex0x", "envelope_hex", "envelope_hex0x",
              "envelope_base64", "envelope_alias_keys", "bech32", "txid_hash_index"}
 
@@ -30,8 +33,10 @@ Init == IF Mode = "forms"
              \* base, reward key / script on both networks, and 0xab for a short all-letters-then-digit string
              \/ \E n \in {2, 29, 57}, h \in {96, 0, 112, 113, 224, 225, 240, 241, 171}, f \in AddressForms :
                    c = [kind |-> "form", type |-> "Address", form |-> f, int |-> FromInt(h), len |-> n, flag |-> FALSE, admissible |-> TRUE]
-             \/ \E n \in {0, 1, 32}, ix \in {0, 1, 65535} :
-                   c = [kind |-> "form", type |-> "UtxoRef", form |-> "txid_hash_index", int |-> FromInt(ix), len |-> n, flag |-> FALSE, admissible |-> TRUE]
+             \* (an output index has 32 bits)
+             \/ \E n \in {0, 1, 32}, ix \in {Zero, One, FromInt(65535), U32Max, Two32, Add(Two32, One), Two64} :
+                   c = [kind |-> "form", type |-> "UtxoRef", form |-> "txid_hash_index", int |-> ix, len |-> n, flag |-> FALSE,
+                        admissible |-> Admissible("UtxoRef", "txid_hash_index", ix)]
              \/ \E t \in Types, s \in BadShapes :
                    c = [kind |-> "shape", type |-> t, form |-> s, int |-> Zero, len |-> 0, flag |-> FALSE,
                         admissible |-> ~ShapeIsBadFor(t, s)]
